@@ -12,6 +12,16 @@ OP_NOTE = ("Trusted: TLC; the harness store (harness/modelstore) as an implement
            "implementation traces are TLC-simulated behaviours plus seeded random histories, not all histories.")
 
 CLAIMS = {
+    "C02": dict(level="model_checking", ref="DESIGN.md §3 C02",
+                text="Decision-table spec spec/Signature.tla: case = (published key set of <= 2 keys [type, kid, use], token [serialisation, header alg, "
+                     "header kid, who signed, payload edit, allowed-algorithm list]). TLC checks the transcription of oidc.ParseToken + CheckSignature + "
+                     "FindMatchingKey against the property sentence (accept => one signature, allowed alg, signer in set, type fits, use permits signatures, "
+                     "kid consistent, payload = signed payload; ambiguity => reject; unique correct match => accept). Every exported case is built with real "
+                     "keys and bytes and fed to rp.VerifyIDToken (remote key set), op.VerifyAccessToken, op.VerifyIDTokenHint (OpenIDKeySet) and "
+                     "oidc.FindMatchingKey; the monitor SignatureTrace judges the observed outcomes with the same rules.",
+                technique="TLA+ decision-table spec model-checked with TLC; TLC-exported cases executed on the real verifiers; observed outcomes judged by the TLA+ monitor",
+                note="Trusted: TLC; byte-level construction of tokens in harness/tbldrv/signature.go; go-jose's parser is part of the implementation under test. "
+                     "Bounds: SignatureDesign_*.cfg (quick: RSA/EC keys, thorough adds Ed25519 keys and keys without use)."),
     "C01": dict(level="model_checking", ref="DESIGN.md §3 C01",
                 text="Decision-table spec spec/Verifier.tla: every case = (abstract ID token over 13 claim dimensions incl. time offsets around every boundary, "
                      "verifier configuration over offset / max iat age / max auth age / nonce / acr). TLC checks for every case that the chain of Check* calls "
